@@ -19,6 +19,9 @@ import (
 //	           limitMode  0 requiredMoveGas+arg | 1 maxGasLimitPerBlock+arg
 //	           nonceMode  0 equal | 1 lower | 2 +1 | 3 +7
 //	           Fault=get_error, FaultAt=n: the n-th disk read inside ProcessTransaction fails
+//	redo     I=[back]                 re-submit the back-th most recent transaction OBJECT built by a tx step, unchanged (same hash)
+//	newBlockAttempt                   abandon everything since the last commit: RevertToSnapshot(0) + fee handler CreateBlockStarted
+//	dropLastMiniblock I=[k]           drop the k (1-3) most recent executed transactions: RevertToSnapshot(before them) + RevertFees(their hashes)
 //	commit   -                        AccountsDB.Commit + fee accumulator CreateBlockStarted (end of block)
 //	restart  -                        Commit, then rebuild storer/trie/AccountsDB/txProcessor over the same disk from the committed root
 const (
@@ -123,6 +126,12 @@ func genC23(r *simkit.Rand, tier string) *simkit.Plan {
 		p.Knobs["cacheSize"] = pick(1, 1, 2)
 	}
 
+	pDrop, pAbandon := 0.0, 0.0
+	if r.Chance(0.6) {
+		pDrop, pAbandon = r.Float64()*0.2, r.Float64()*0.15
+	}
+	nLogged := 0
+
 	nTx := r.Range(5, 40)
 	for i := 0; i < nTx; i++ {
 		if r.Chance(pEpoch) {
@@ -184,6 +193,29 @@ func genC23(r *simkit.Rand, tier string) *simkit.Plan {
 			st.FaultAt = r.Intn(4)
 		}
 		p.Steps = append(p.Steps, st)
+		nLogged++
+		if r.Chance(pDrop) {
+			// the coordinator cannot keep the last miniblock: drop its 1-3 transactions by hash, maybe run them again
+			k := r.Range(1, 3)
+			p.Steps = append(p.Steps, simkit.Step{Op: "dropLastMiniblock", I: []int64{int64(k)}})
+			if r.Chance(0.5) {
+				for b := minInt(k, nLogged) - 1; b >= 0; b-- {
+					p.Steps = append(p.Steps, simkit.Step{Op: "redo", I: []int64{int64(b)}})
+				}
+			}
+		}
+		if r.Chance(pAbandon) {
+			// the block attempt is abandoned; the next attempt executes (some of) the same transactions again
+			p.Steps = append(p.Steps, simkit.Step{Op: "newBlockAttempt"})
+			for b := minInt(r.Range(1, 4), nLogged) - 1; b >= 0; b-- {
+				if r.Chance(0.85) {
+					p.Steps = append(p.Steps, simkit.Step{Op: "redo", I: []int64{int64(b)}})
+				}
+			}
+			if r.Chance(0.5) {
+				p.Steps = append(p.Steps, simkit.Step{Op: "dropLastMiniblock", I: []int64{int64(r.Range(1, 3))}})
+			}
+		}
 		if r.Chance(pRestart) {
 			p.Steps = append(p.Steps, simkit.Step{Op: "restart"})
 		} else if r.Chance(pCommit) {
@@ -191,4 +223,11 @@ func genC23(r *simkit.Rand, tier string) *simkit.Plan {
 		}
 	}
 	return p
+}
+
+func minInt(a, b int) int {
+	if a < b {
+		return a
+	}
+	return b
 }
